@@ -115,7 +115,7 @@ RULES = {
     "C15": "proptest allocation/release workloads (leaves of 9 size classes up to 64 KiB, garbage and live rings, releases, buffering, explicit collections, configuration changes at arbitrary points; percent from {0, 1e-9, 0.05, 0.1, 0.5, 0.9, 0.99, 1}; buffered threshold None or 1..8). Non-trivial: the byte threshold both grew and shrank during the workload and >=1 creation happened within 4200 bytes of the trigger boundary. Distinct by FNV hash of the workload.",
     "C16": "proptest cases: object variant (created inside a finalizer or not, self-cycle or not, side record or not) x route to the limit (clone / upgrade / mixed) x start offset 0..3 below 16382 (strong) and 32767 (weak) x a 1..40 step walk of clone/upgrade/downgrade/Weak::clone/drop/Weak::drop; in a quarter of the cases every Cc is released first (by the counter or, for the self cycle, by the collector) and the walk runs on the released allocation with up to 32767 Weak pointers. Non-trivial: the walk hit a limit and either moved away and came back, or hit limits twice. Distinct by case hash.",
     "C17": "proptest cases: container shape (tuples 1..12, arrays 0/1/2/3/8/32, Vec 0..40, boxed slice, Box, Option, Result, RefCell free/borrowed/mutably borrowed, ManuallyDrop, AssertUnwindSafe, Box<dyn Trace>, 10 two-level nestings, a tuple with Weak/Cleaner/Cleanable/PhantomData/scalars, and EVERY composition of depth 1..3 of 15 wrappers {Vec, [T;2], Box<[T]>, Box, Option, Result::Ok, Result::Err, (T,), (u32,T), (T,T), RefCell, ManuallyDrop, AssertUnwindSafe, [T;1], Box<dyn Trace>} around a probe: the 3 615 compositions are enumerated as a seed-independent grid (3 cases each) before the random cases) x which positions own a Cc x which one carries the cycle back to the owner x which targets have an extra program handle. Non-trivial: the cycle routed through the chosen position was reclaimed. Distinct by case hash.",
-    "C18": "seeded grammar of type definitions (structs unit/tuple/named with 0..8 fields, enums with 1..4 variants of mixed kinds, #[rust_cc(ignore)] on fields and variants, a type parameter, nested std containers; ignored fields alternate between a probe and a type without Trace); 60 types + 20 Drop-conflict probes per quick run (600 + 100 thorough), compiled with the real derive macro and executed. Non-trivial: a type definition with >=1 ignored and >=1 traced probe position. Distinct by hash of the definition.",
+    "C18": "seeded grammar of type definitions (structs unit/tuple/named with 0..8 fields, enums with 1..4 variants of mixed kinds, #[rust_cc(ignore)] on fields and variants, 0-2 type parameters and a const parameter with inline bounds or a where clause, parameters used directly and inside containers, nested std containers two levels deep, unrelated attributes and doc comments on types and fields; ignored fields alternate between a probe and a type without Trace); 150 types + 40 Drop-conflict probes per quick run (1500 + 200 thorough), compiled with the real derive macro and executed. Non-trivial: a type definition with >=1 ignored and >=1 traced probe position. Distinct by hash of the definition.",
     "C19": "(a) proptest: 2..16 threads, one generated panic-free heap program per thread, yields at generated operation boundaries, result compared with the same program run alone; (b) proptest thread-teardown scenarios run in child processes (thread-locals with Ccs/Weaks/cleanables registered before or after the collector's thread-local; unique, buffered, cyclic objects; garbage cycles buffered at exit). Non-trivial: (a) >=2 threads were inside collect_cycles() at the same time (shared atomic counter); (b) a scenario with objects in thread-locals or garbage buffered at exit. Distinct by case hash.",
     "C20": "(a) proptest value pairs over i32, u8, f64 and f32 (NaN, +-0, infinities), String, (i32, String), Option<i64>: every comparison operator, cmp, hash (SipHash and FNV), Debug and Display under 10 + 12 format specifications (width, fill, alignment, sign, alternate, zero padding, precision) including a payload that prints the formatter's options, Default on Cc<T> against T; (b) layout grid 13 alignments (1..4096) x 8 sizes (0..4096) x linked/plain payloads with generated programs: address laws after every operation. Non-trivial: pairs with x != y (trait half) / programs of >=3 operations (address half). Distinct by case hash.",
     "C14": "proptest heap programs with new_cyclic-heavy profile and faults. Non-trivial: a new_cyclic call during which a collection ran, or whose closure panicked after saving a weak clone. Distinct by case hash.",
